@@ -378,7 +378,7 @@ def run(ctx):
                                       InterSystemRecurrenceNetwork)
     rng = ctx.rng
     quick = ctx.tier == "quick"
-    scale = 4 if quick else 40
+    scale = 8 if quick else 100
     ctx.rule = ("half-integer series (length 1..10 quick / ..17 thorough, 1-3 columns or delay "
                 "embedding dim 1-3, tau 1-3, NaN patterns), thresholds k/4 (ties with distances "
                 "included, also 0 and negative), dyadic rates k/16 incl. 0 and 1, lags -4..4 and "
